@@ -188,6 +188,8 @@ pub struct World {
 
     // reach probes derived at the seams
     pub probe_read_filled_buffer: u64,
+    /// size of the buffer offered by the very first read call (the roll buffer's capacity)
+    pub first_read_offer: Option<usize>,
     pub probe_short_write: u64,
     pub probe_write_interrupted: u64,
     /// hard cap on read calls (threadsim): exceeding it panics with BUDGET_MARK
@@ -233,6 +235,7 @@ impl World {
             hash: Hasher64::new(),
             n_events: 0,
             probe_read_filled_buffer: 0,
+            first_read_offer: None,
             probe_short_write: 0,
             probe_write_interrupted: 0,
             max_read_calls: None,
@@ -273,6 +276,9 @@ impl World {
             self.seam_call_while_pending = true;
         }
         let offered = buf.len();
+        if call == 0 {
+            self.first_read_offer = Some(offered);
+        }
         // injected faults first: a faulted call consumes neither data nor step
         for i in 0..self.faults.len() {
             match self.faults[i] {
